@@ -86,8 +86,9 @@ func runStoreOps(h *H, kind string, ops []hsOp) {
 		return -1
 	}
 	var fires []string
-	live := map[[2]int]int{}    // On registrations not removed since
-	onceAv := map[[2]int]int{}  // Once registrations not yet consumed/removed
+	var held []heldFire
+	live := map[[2]int]int{}   // On registrations not removed since
+	onceAv := map[[2]int]int{} // Once registrations not yet consumed/removed
 	nontrivial := false
 	pn := safely(func() {
 		for _, o := range ops {
@@ -148,22 +149,37 @@ func runStoreOps(h *H, kind string, ops []hsOp) {
 				live = map[[2]int]int{}
 				onceAv = map[[2]int]int{}
 			case "fire":
+				// the handlers are taken exactly as a dispatch takes them; the slice is kept and read again after the rest of the
+				// history: an occurrence that is still being dispatched must go on seeing the handlers it was given
 				var ids []int
+				var again func() []int
 				if gs != nil {
-					for _, p := range gs.GetAll() {
-						id := -1
-						for i := range ptr {
-							if ptr[i] == p {
-								id = i
+					rd := gs.GetAllHeld()
+					again = func() []int {
+						var out []int
+						for _, p := range rd() {
+							id := -1
+							for i := range ptr {
+								if ptr[i] == p {
+									id = i
+								}
 							}
+							out = append(out, id)
 						}
-						ids = append(ids, id)
+						return out
 					}
 				} else {
-					for _, v := range es.GetAll(evName(o.ev)) {
-						ids = append(ids, idOf(v))
+					rd := es.GetAllHeld(evName(o.ev))
+					again = func() []int {
+						var out []int
+						for _, v := range rd() {
+							out = append(out, idOf(v))
+						}
+						return out
 					}
 				}
+				ids = again()
+				held = append(held, heldFire{at: len(fires), ids: append([]int(nil), ids...), again: again})
 				fires = append(fires, "fire="+joinInts(ids))
 				if kind == "g" {
 					// sub-handlers are outside the predicates below; they are compared with the model only
@@ -194,6 +210,14 @@ func runStoreOps(h *H, kind string, ops []hsOp) {
 		h.Violation("C18", "a handler store operation panics", req, pn)
 		return
 	}
+	for _, hf := range held {
+		if now := hf.again(); joinInts(now) != joinInts(hf.ids) {
+			// the model's answer for this occurrence is what it was given; report the late reading as the implementation's answer
+			fires[hf.at] = "fire=" + joinInts(now)
+			h.Violation("C18", "the handlers given to an occurrence change while it is being dispatched", req,
+				fmt.Sprintf("occurrence %d was given handlers %v; after the later operations of the history the same slice reads %v", hf.at, hf.ids, now))
+		}
+	}
 	ans := strings.Join(fires, ";")
 	if len(fires) == 0 {
 		ans = "-"
@@ -203,6 +227,12 @@ func runStoreOps(h *H, kind string, ops []hsOp) {
 	if nontrivial || len(fires) >= 2 {
 		h.NonTrivial(req)
 	}
+}
+
+type heldFire struct {
+	at    int
+	ids   []int
+	again func() []int
 }
 
 func containsInt(xs []int, x int) bool {
@@ -264,6 +294,31 @@ func storeComp(h *H) {
 		}
 	}
 	h.extra["exhaustive"] = fmt.Sprintf("every sequence of <=%d operations over a %d-op alphabet, followed by an occurrence", maxLen, len(alpha))
+	// ---- an occurrence in progress while the store changes: n On handlers (every slice length / capacity up to 12), k pending Once
+	// handlers, an occurrence, then a registration / a second occurrence / removals
+	for n := 0; n <= 12; n++ {
+		for k := 0; k <= 2; k++ {
+			for _, tail := range [][]hsOp{
+				{{"on", 0, []int{4}}, {"fire", 0, nil}},
+				{{"once", 0, []int{4}}, {"fire", 0, nil}},
+				{{"once", 0, []int{4}}, {"on", 0, []int{3}}, {"fire", 0, nil}, {"fire", 0, nil}},
+				{{"off", 0, []int{0}}, {"on", 0, []int{4}}, {"fire", 0, nil}},
+				{{"offall", 0, nil}, {"on", 0, []int{4}}, {"on", 0, []int{4}}, {"fire", 0, nil}},
+			} {
+				var ops []hsOp
+				for i := 0; i < n; i++ {
+					ops = append(ops, hsOp{"on", 0, []int{i % 3}})
+				}
+				for i := 0; i < k; i++ {
+					ops = append(ops, hsOp{"once", 0, []int{3}})
+				}
+				ops = append(ops, hsOp{"fire", 0, nil})
+				ops = append(ops, tail...)
+				runStoreOps(h, "e", ops)
+				runStoreOps(h, "g", ops)
+			}
+		}
+	}
 	// ---- random longer histories: 3 events, 5 handlers, same handler twice, multi-handler off, absent handlers
 	n := 4000
 	if h.Thorough() {
